@@ -483,6 +483,11 @@ def shapes(tier, seed):
             out.append(Shape(f"expect/{route}/mixed/{nm}", h_expect, dict(route=route, words=w3, spec=PREPS[2], n=2, init=False, complex_coefs=flags),
                              modules=MODS))
     out.append(Shape("variance/with-constant", h_variance, dict(words=[[(0, "X")], [(0, "Z"), (1, "Z")]], spec=PREPS[0], n=2, ident=True), modules=MODS))
+    from harness import c10 as _c10
+    for order in ("lsq_first", "msq_first"):
+        for (nn, q, res) in ((2, 0, 1), (2, 1, 0), (3, 0, 0), (3, 2, 1), (3, 1, 1)):
+            out.append(Shape(f"postselect/helper/{order}/n{nn}q{q}r{res}", _c10.h_collapse, dict(n=nn, qubit=q, result=res, order=order),
+                             modules=MODS + tuple(_c10.MODS)))
     out.append(Shape("variance/1", h_variance, dict(words=[[(1, "Y")]], spec=PREPS[3], n=2), modules=MODS))
     for i, route in enumerate(routes):
         for outcome in (0, 1):
